@@ -40,7 +40,9 @@ P = {
             "all 216 answer tables (3 decisions x error flag per check) x all 6 completion orders from TLC (the next blocked "
             "Authorize call is released only after the previous checker goroutine has exited), over 7 request shapes "
             "(verbs, namespaced/global, bare/tier-prefixed/empty names), plus seeded random tables; every question put to the "
-            "authorizer and the verdict are validated against P_Auth; a race-detector report during a call is a `race` event "
+            "authorizer and the verdict are validated against P_Auth; the stub honours context cancellation like a webhook authorizer "
+            "(a question whose context the implementation has cancelled is answered 'no opinion' + error, and the verdict is still "
+            "judged against the table); a race-detector report during a call is a `race` event "
             "that no action accepts; non-trivial = the call asked the authorizer and returned",
     "assumptions": ["the stub recognises the three checks by resource 'tiers' / name '<tier>.*' / anything else",
                     "only nil versus non-nil of the returned error is judged (the kind of error is recorded, not judged)"],
@@ -133,6 +135,19 @@ def selftest(ctx):
                 e["d"] = "Deny" if e["d"] != "Deny" else "Allow"
                 return es
 
+    def cancelled_tier_get(es):        # an allowed call whose tier GET was cancelled and therefore denied
+        cur = None
+        for e in es:
+            if e["ev"] == "reset":
+                cur = [x for x in es if x["t"] == e["t"]]
+                res = [x for x in cur if x["ev"] == "result"]
+                if res and res[0]["allowed"]:
+                    for x in cur:
+                        if x["ev"] == "ask" and x["check"] == "getTier":
+                            x["cancelled"], x["d"], x["e"] = True, "NoOpinion", True
+                            res[0]["allowed"] = False
+                            return es
+
     def inject_race(es):
         for i, e in enumerate(es):
             if e["ev"] == "result":
@@ -140,7 +155,8 @@ def selftest(ctx):
 
     ok = True
     for name, fn in [("flip_verdict", flip_verdict), ("wrong_question", wrong_question), ("wrong_wildcard", wrong_wildcard),
-                     ("wrong_answer", wrong_answer), ("inject_race", inject_race)]:
+                     ("wrong_answer", wrong_answer), ("cancelled_tier_get", cancelled_tier_get),
+                     ("inject_race", inject_race)]:
         bad = fn([dict(e) for e in evs])
         if bad is None:
             log("selftest: corruption %s not applicable" % name)
